@@ -19,3 +19,15 @@ def add_obligations(pack, tier):
                 'textbook ratios stated in C11; verified pointwise for one arbitrary device of one arbitrary model')
     from contracts import fn_decl as D
     run_contracts(pack, [(fn_pu.calc_pu_coeff('C01'),), (fn_pu.set_pu_coeff('C01'),), (D.declaration('C01', *D.LINE),)])
+    # end-to-end bounded stand-in: power balance of converged solutions against the raw input data
+    from contracts.packutil import native_guard
+    from contracts import bounded_pflow_balance as BP
+    name = 'C01/andes/routines/pflow.py:PFlow.run/bounded:converged-solution-balances-the-input-data'
+    r = native_guard(pack, name, BP.run)
+    if r is not None:
+        n, bad = r
+        pack.bounded.append({'function': 'System.add / setup / PFlow.run (end to end)', 'cases': n, 'counted_as_proved': False,
+                             'kind': 'bounded native: 5-bus network with tap, phase shift, asymmetric shunts, three device-base encodings; '
+                                     'admittance matrix rebuilt from vin'})
+        if bad:
+            pack.violation(name, {'bounded': True, 'inputs': bad, 'native_cmd': 'contracts/bounded_pflow_balance.py'})
